@@ -12,7 +12,9 @@ NumPy classes by explicit construction (no alias factory, no torch modules):
     samples as a column) -> PostProcessor.apply in order -> float32
 
 The samples are integer valued (int16 range) so that every container holds exactly the
-same values; the reference reads them back with read_signal and cross-checks them with
+same values (the utterance sets mono / mindur / rate / sweep also hold digital silence, a signal
+preceded / followed by zero padding and - in the array containers of the torch tool - a float64
+utterance of peak amplitude 1e-4: the value-dependent paths such as the floor of the logarithm); the reference reads them back with read_signal and cross-checks them with
 what was written.  Utterances for which the reference pipeline itself raises (e.g.
 Standardize on an empty matrix) are outside the property's domain: they are left out of
 the input set and counted as skipped.
@@ -55,7 +57,8 @@ ASSUMPTIONS = [
     "compute_full, Deltas/Stack/Standardize .apply with default arguments), constructed "
     "explicitly; their own correctness is C02/C03/C15/C16/C18",
     "sample values: integer-valued generic signals (int16 range) so that wav/sph/npy/pt/npz/hdf5 "
-    "hold identical data; pydrobert-kaldi is trusted to read the feature table and the wave table",
+    "hold identical data, plus all-zero, zero-padded (2L leading / trailing zeros) and - npy/pt/npz/hdf5 of the "
+    "torch tool only - one float64 utterance of peak amplitude 1e-4; other amplitudes are not explored; pydrobert-kaldi is trusted to read the feature table and the wave table",
     "multi-channel inputs are (C, S) arrays for the torch tool and multi-channel wav files for the "
     "kaldi tool (its wave reader is channels-first); a stereo wav given to the torch tool is outside "
     "the property's domain; signals with L//2+1 <= N < L are not in the utterance sets (C14 leaves "
@@ -1374,7 +1377,8 @@ def subchecks(tier, seed, only=None):
         pre={k: PRES[k] for k in kpres}, post={k: POSTS[k] for k in posts},
         syntax=list(SYNTAXES), container=dict(torch=list(TORCH_CONTAINERS), kaldi=list(KALDI_CONTAINERS)),
         utterance_sets=dict(
-            mono="normal x2, too short for a frame, one sample",
+            mono="normal x2, too short for a frame, one sample, all zeros, 2L zeros + signal, signal + 2L zeros, "
+                 "float64 with peak amplitude 1e-4 (torch tool, array containers)",
             ch0_ch1="2-channel, 3-channel, 2-channel too short, 1-channel (C,S) with --channel 0/1 "
                     "(array containers for the torch tool; kaldi: multi-channel wav; --channel 1 excludes "
                     "the 1-channel utterance for the kaldi tool)",
@@ -1476,7 +1480,7 @@ def subchecks(tier, seed, only=None):
             "framing", fpts, lambda p: _framing(p, seed),
             "tool x {causal, centered, centered+kaldi_shift} x frame length {even, odd} x frame shift "
             "{even, odd} (STFT; SI: style x shift) x post; inner: one utterance of EVERY length 0 (kaldi: "
-            "1) .. 2L+2S in one run: every stored matrix allclose to the NumPy reference pipeline; "
+            "1) .. 2L+2S in one run, plus an all-zero, two zero-padded and (torch tool) a quiet float64 utterance: every stored matrix allclose to the NumPy reference pipeline; "
             "non-trivial = utterances with at least three different frame counts were stored",
             axes=dict(tool=["torch", "kaldi"], frame_styles=[list(x) for x in FRAME_STYLES],
                       frame_length=list(FRAME_LENGTHS[tier_]), frame_shift=list(FRAME_SHIFTS[tier_]),
